@@ -447,7 +447,7 @@ ebpps_sample<T, A>::const_iterator::const_iterator(const ebpps_sample* sample) :
     idx_ = PARTIAL_IDX;
   }
 
-  if (sample_->c_== 0.0 || (sample_->data_.size() == 0 && !sample_->has_partial_item())) { sample_ = nullptr; }
+  if (sample_->c_== 0.0 || (sample_->data_.size() == 0 && !use_partial_)) { sample_ = nullptr; }
 }
 
 template<typename T, typename A>
